@@ -60,19 +60,22 @@ def scanFrac (s : List Nat) : Option (Option (List Nat)) :=
   | 46 :: r => if takeDigits r = [] then none else some (some (takeDigits r))
   | _ => some none
 
-/-- `[ exp ]` : outer `none` = malformed -/
+/-- optional sign of the exponent: its value and its length -/
+def expSign (r : List Nat) : Int × Nat :=
+  match r with
+  | 43 :: _ => (1, 1)
+  | 45 :: _ => (-1, 1)
+  | _ => (1, 0)
+
+/-- `[ exp ]` : outer `none` = malformed; otherwise the written exponent and the number of bytes of the part -/
 def scanExp (s : List Nat) : Option (Option (Int × Nat)) :=
   match s with
   | [] => some none
   | c :: r =>
     if c = 101 ∨ c = 69 then
-      match r with
-      | 43 :: r' =>
-        if takeDigits r' = [] then none else some (some ((digitsVal (takeDigits r') : Int), 2 + (takeDigits r').length))
-      | 45 :: r' =>
-        if takeDigits r' = [] then none else some (some (-(digitsVal (takeDigits r') : Int), 2 + (takeDigits r').length))
-      | _ =>
-        if takeDigits r = [] then none else some (some ((digitsVal (takeDigits r) : Int), 1 + (takeDigits r).length))
+      let ds := takeDigits (r.drop (expSign r).2)
+      if ds = [] then none
+      else some (some ((expSign r).1 * (digitsVal ds : Int), 1 + (expSign r).2 + ds.length))
     else some none
 
 def signLen (s : List Nat) : Nat := match s with | 45 :: _ => 1 | _ => 0
